@@ -359,6 +359,14 @@ Theorem c20_single_options_at_most_once : forall argv out, parse CLI GROUP argv 
 Proof. exact cli_single_once. Qed.
 Print Assumptions c20_single_options_at_most_once.
 
+(* `--name=value` and `--name value` are the same command line, for every valued option of the regenerated table, at every
+   place of the argument vector (the value must not look like an option: `-x`, `--x`; a lone `-` is a value) *)
+Theorem c20_eq_form_same_as_space_form : forall name v rest acc a,
+  find_long CLI name = Some a -> a_kind a <> KFlag -> looks_like_option v = false ->
+  scan CLI (long_eq_form name v :: rest) false acc = scan CLI (long_form name :: v :: rest) false acc.
+Proof. exact cli_eq_form_same_as_space_form. Qed.
+Print Assumptions c20_eq_form_same_as_space_form.
+
 (* every argument vector, every environment: the process ends through clap (usage error: status 2, one message on
    standard error, NOTHING else happens - no sink is opened, no report byte; help / version: status 0, text on standard
    output, no sink opened - not even the --log-file) or reaches main()'s logic with a flag record *)
